@@ -75,7 +75,8 @@ def make(i, base_seed, tier, lite=False):
     else:
         # beyond the swept alphabet: ACK payloads switched on / off (`ack = True` also enables auto-ack on pipe 0)
         # ... and, for the full driver, the application's power switch: waking a radio whose CONFIG says "receiver" is an RX entry too
-        ops = [rng.choice(syms + (["ackT", "ackT", "ackF", "pwrF", "pwrT", "pwrT"] if not lite else ["ackT", "ackF"])) for _ in range(rng.randint(5, 12))]
+        # ... and a rejected open_rx_pipe(0, b"") (ValueError: nothing reaches the radio, nothing is remembered)
+        ops = [rng.choice(syms + (["ackT", "ackT", "ackF", "pwrF", "pwrT", "pwrT", "rx0bad"] if not lite else ["ackT", "ackF", "rx0bad"])) for _ in range(rng.randint(5, 12))]
         kind = "random"
     # MCU personality: cost of one SPI transaction. With CircuitPython-class costs a single transaction outlasts the radio's
     # 130 us RX settling time, so the order of the register writes inside a role change becomes observable on the air
@@ -154,7 +155,13 @@ def _run(scn, w, res):
         if op == "lisT":
             tx_opened_in_rx = False
         sim.log("call", "U", op)
-        if op.startswith("rx0"):
+        if op == "rx0bad":
+            try:
+                uut.open_rx_pipe(0, b"")
+                res.add("rx_pipe0", {"kind": "empty_address_accepted"}, "open_rx_pipe(0, b'') did not raise")
+            except ValueError:
+                sim.count("rejected_open_rx_pipe")
+        elif op.startswith("rx0"):
             uut.open_rx_pipe(0, ad[op[3]])
             user0 = ad[op[3]]
         elif op == "rx1C":
